@@ -15,9 +15,9 @@ if [ -f $d/demo.diff ]; then
   git apply -R $d/patch.diff
   without=$(cargo test --offline seeded_demo 2>&1 | grep -E "^test result" | head -1)
 else
-  with=$(node $d/demo.js $wt 2>&1 | tail -1); 
+  with=$(REPO=$wt node $d/demo.js $wt 2>&1 | tail -1); 
   git apply -R $d/patch.diff
-  without=$(node $d/demo.js $wt 2>&1 | tail -1)
+  without=$(REPO=$wt node $d/demo.js $wt 2>&1 | tail -1)
 fi
 echo "demo with change   : $with"
 echo "demo without change: $without"
